@@ -51,6 +51,11 @@ def check(repo: Repo, rep, tier):
     from .C10 import zip_lockstep
 
     zip_lockstep(repo, rep)
+    from .C03 import element_parens
+    from .C06 import adapter_dispatch
+
+    element_parens(repo, rep)
+    adapter_dispatch(repo, rep)
 
 
 def codegen_roots(repo: Repo) -> List[Func]:
